@@ -106,6 +106,10 @@ func tokValue(label string) any {
 		return literal.Null()
 	case "int2^53":
 		return basicInt(1 << 53)
+	case "str-600":
+		return strings.Repeat("0123456789", 60)
+	case "bytes-70k":
+		return bytes.Repeat([]byte{0xab, 0xcd, 0xef, 0x01, 0x23, 0x45, 0x67}, 10000)
 	}
 	panic("bad value label " + label)
 }
